@@ -99,6 +99,14 @@ def judge(st, gi, n, X, cfg, tag='native', keep=None):
     bad_exc = np.nonzero(status < 0)[0]
     for c in bad_exc[:3]:
         st.violation(f'exception/{g.name}', 'parse_sentence raised', x=X[c].tolist(), **base)
+    exact = float(pen * 8).is_integer()
+    if not exact:
+        # non-dyadic unary penalty (the default 0.1): float32 sums are not exact, so optimality is judged with a tolerance and
+        # the monotonicity sub-claim is not evaluated on this family
+        st.count('executions_inexact_penalty', X.shape[0])
+        mono = np.zeros_like(mono)
+        close = np.isclose(got, best, rtol=0, atol=1e-4) | (~np.isfinite(got) & ~np.isfinite(best))
+        got = np.where(close, best, got)
     sub = np.nonzero(judged & (status == 0) & (got != best))[0]
     for c in sub[:3]:
         st.violation(f'suboptimal/{"L" if g.head_left else "R"}/{g.name.split(".")[0]}', f'returned score {got[c]} but the best derivation scores {best[c]}',
@@ -212,6 +220,10 @@ def plan(tier):
         if tier == 'thorough' and not real and T == 1:
             shards.append(('dev', gi, 5, V4, 0.0, 2, dict(unary_penalty=0.5)))
             shards.append(('dev', gi, 5, V4, -1.0, 2, dict(unary_penalty=0.5)))
+        # the default unary penalty 0.1 is not representable: one tolerance-judged family per grammar with unary rules
+        if any(g.unary(c) for c in g.tags) and not real:
+            for n in (1, 2, 3):
+                shards.append(('dev', gi, n, V4, -1.0, 1, dict(unary_penalty=0.1)))
         # beam configurations ride on the deviation sets
         if T > 1:
             for cfgb in (dict(pruning_size=1), dict(use_beta=True, beta=0.01), dict(pruning_size=1, use_beta=True, beta=0.2)):
